@@ -1545,6 +1545,24 @@ def c16_genexit(ctx):
             ctx.check(isinstance(p, ast.If) and unparse(p.test) == "not detach_generator_exit", c, "finally skips _terminate_and_reset iff detached")
         starts = [c for c in calls_in(body) if call_attr(c) == "start"]
         ctx.check(bool(starts), starts[0] if starts else h, "the detached thread is started")
+        # which close goes where: the detached thread exactly when the closing thread is NOT the dispatching one (the
+        # dispatching thread may hold what the abort joins); the inline abort + re-raise exactly in the dispatching thread
+        from ..core import cond_facts
+        ident = [a for a in nodes_of_type(f, ast.Assign) if isinstance(a.value, ast.Call) and call_name(a.value) == "threading.get_ident"]
+        idn = ident[0].targets[0].id if ident and isinstance(ident[0].targets[0], ast.Name) else "dispatch_thread_id"
+        foreign = {("%s != threading.get_ident()" % idn, True), ("threading.get_ident() != %s" % idn, True), ("%s == threading.get_ident()" % idn, False), ("threading.get_ident() == %s" % idn, False)}
+        same = {(t_, not v_) for (t_, v_) in foreign}
+        def thread_facts(node):
+            return {x for x in cond_facts([c_ for c_ in g.conditions_at(g.nodes_of(node)) if isinstance(c_[0], ast.If) and in_block(c_[0], h.body)]) if "get_ident" in x[0]}
+        for c in starts + det:
+            ctx.check(bool(thread_facts(c) & foreign) and not (thread_facts(c) & same), c, "the detached path is taken exactly when the generator is closed from another thread than the dispatching one",
+                      "the detached abort is taken under %s" % sorted(thread_facts(c)))
+        ctx.check(bool(thread_facts(last) & same) and not (thread_facts(last) & foreign), last, "the inline abort and re-raise happen only in the dispatching thread",
+                  "the inline abort / re-raise is reached under %s: a close from a foreign thread aborts inline (it can join itself)" % sorted(thread_facts(last)))
+        ctx.check(bool(ident) and not any(in_block(a, tr.body) or in_block(a, h.body) for a in ident[:1]), ident[0] if ident else f, "the dispatching thread's id is sampled when the generator starts")
+        rets_d = [r for r in walk_local(body) if isinstance(r, ast.Return)]
+        ctx.check(any(bool(thread_facts(r) & foreign) for r in rets_d), rets_d[0] if rets_d else h, "after detaching, the handler returns (the inline path is not also taken)",
+                  "after starting the detached thread the handler falls through to the inline abort")
     else:
         ctx.ok(h, "no detached branch: GeneratorExit is always handled in the closing thread")
     ab_f = F(ctx, "Parallel._abort")
